@@ -78,6 +78,11 @@ def run(chk, scratch):
                 w.make_read(chrom_, blocks_, flag=tail_["flag"], truth={"class": "twin-without-tail", "tailless_twin": True})
         pipeline.write_world(w, d)
         gtf = os.path.join(d, "a.gtf")
+        os.makedirs(os.path.join(d, "sfx"), exist_ok=True)
+        with open(gtf, "rb") as f, gzip.open(os.path.join(d, "sfx", "a.gtf.gzip"), "wb") as g:
+            g.write(f.read())
+        import pysam as _pysam
+        _pysam.tabix_compress(gtf, os.path.join(d, "sfx", "a.gtf.bgz"), force=True)
         with open(gtf, "rb") as f, gzip.open(os.path.join(d, "a.gtf.gz"), "wb") as g:
             g.write(f.read())
         # databases built with the tree's own converter
@@ -122,6 +127,9 @@ def run(chk, scratch):
         runs = [("ref", ["-g", gtf, "--complete_genedb", "--bam", bam], "home_ref", None),
                 ("gtf-gz", ["-g", gtf + ".gz", "--complete_genedb", "--bam", bam], "home_gz", "annotation"),
                 ("gtf-inferred", ["-g", gtf, "--bam", bam], "home_inf", "annotation"),
+                # the compressed annotation under the other suffixes IsoQuant's own annotation check recognises (.gzip, .bgz)
+                ("gtf-gzip-suffix", ["-g", os.path.join(d, "sfx", "a.gtf.gzip"), "--complete_genedb", "--bam", bam], "home_gzip", "annotation"),
+                ("gtf-bgz-suffix", ["-g", os.path.join(d, "sfx", "a.gtf.bgz"), "--complete_genedb", "--bam", bam], "home_bgz", "annotation"),
                 ("db-complete", ["-g", os.path.join(d, "complete.db"), "--complete_genedb", "--bam", bam], "home_dbc", "annotation"),
                 ("db-inferred", ["-g", os.path.join(d, "inferred.db"), "--bam", bam], "home_dbi", "annotation"),
                 ("cached", ["-g", gtf, "--complete_genedb", "--bam", bam], "home_ref", "annotation-cache"),
